@@ -13,8 +13,9 @@ from desper.logic import World, OnUpdateProcessor, CoroutineProcessor
 ON_WORLD_LOAD_EVENT_NAME = 'on_world_load'
 
 OBJECT_STRING_REGEX = re.compile(r'\$\{(.+)\}')
-RESOURCE_STRING_REGEX = re.compile(r'\$res\{(.+)\}')
-HANDLE_STRING_REGEX = re.compile(r'\$handle\{(.+)\}')
+# DOTALL: a resource key may hold any character, line breaks included
+RESOURCE_STRING_REGEX = re.compile(r'\$res\{(.+)\}', re.DOTALL)
+HANDLE_STRING_REGEX = re.compile(r'\$handle\{(.+)\}', re.DOTALL)
 
 
 class WorldHandle(Handle[World]):
